@@ -13,7 +13,7 @@ CONSTANTS MaxFields, Addrs, Sizes, Aligns, Palette, Ptrs, WithVft, WithPacked, N
 (* constant sets for the configurations (a .cfg cannot write negative numbers) *)
 QAddrs == {None, 0, 2, 4, 8}
 QSizes == {None, 8, 12}
-QAligns == {None, 2, 4, 6}
+QAligns == {None, 0, 2, 4, 6}
 QPalette == {"u8", "u16", "u32", "u64", "cptr", "arr16x2"}
 Q3Aligns == {4}
 Q3Palette == {"u8", "u32", "unk2"}
